@@ -687,6 +687,22 @@ func checkStringEqual(c *Check, P *CProgram, r *Rule) {
 		})
 	}
 	pos := fmt.Sprintf("%s:%d", f.Unit, mc[0].line)
+	// the compared quantity must be a number of BYTES (strlen of the buffer, cap-1, or a function all of whose results are
+	// such or 0), not a number of code points
+	var lenExpr *CNode
+	f.Body.walk(func(m *CNode) bool {
+		if m.Kind == "VarDecl" && m.Name == L && len(m.Inner) > 0 {
+			lenExpr = m.Inner[len(m.Inner)-1]
+		}
+		return true
+	})
+	if lenExpr == nil {
+		lenExpr = mc[0].args()[2]
+	}
+	if okLen && !cByteLength(P, lenExpr, 0) {
+		r.AddAt(Bad, "C ddp_string_equal|compared length", pos, "memcmp compares "+cstrip(lenExpr).text()+" bytes, which is not a byte count of the text (a count of code points, or unknown): texts that differ only after that many bytes compare equal")
+		return
+	}
 	if okLen {
 		r.AddAt(OK, "C ddp_string_equal|compared length", pos, "memcmp compares "+L+", the quantity the guard tested ("+guardQ+")")
 	} else {
@@ -998,4 +1014,48 @@ func checkEncoderRange(P *CProgram, r *Rule) {
 			}
 		}
 	}
+}
+
+// cByteLength: the expression is a number of bytes of a text: strlen(...), an expression over ->cap, a constant, or a call
+// of a function of the runtime all of whose returned values are such.
+func cByteLength(P *CProgram, n *CNode, depth int) bool {
+	n = cstrip(n)
+	if n == nil || depth > 3 {
+		return false
+	}
+	if _, ok := cIntValue(n); ok {
+		return true
+	}
+	switch n.Kind {
+	case "CallExpr":
+		name := n.calleeName()
+		if name == "strlen" {
+			return true
+		}
+		if g := P.Funcs[name]; g != nil && g.Body != nil {
+			all, any := true, false
+			g.Body.walk(func(m *CNode) bool {
+				if m.Kind == "ReturnStmt" && len(m.Inner) == 1 {
+					any = true
+					if !cByteLength(P, m.Inner[0], depth+1) {
+						all = false
+					}
+				}
+				return true
+			})
+			return all && any
+		}
+		return false
+	case "MemberExpr":
+		return n.Name == "cap"
+	case "BinaryOperator":
+		if len(n.Inner) == 2 && (n.Opcode == "-" || n.Opcode == "+") {
+			return cByteLength(P, n.Inner[0], depth+1) && cByteLength(P, n.Inner[1], depth+1)
+		}
+	case "CStyleCastExpr", "ParenExpr", "ImplicitCastExpr":
+		if len(n.Inner) > 0 {
+			return cByteLength(P, n.Inner[len(n.Inner)-1], depth+1)
+		}
+	}
+	return false
 }
